@@ -1,6 +1,7 @@
 import FluteModel.Drv.Util
 import FluteModel.Toi
 import FluteModel.ToiWire
+import FluteModel.Drv.Admit
 /-
   Line protocol of engine `toi` (first token `toi` already dropped):
     new <16|32|48|64|80|112> <init|none> <tsi>   -> ok
@@ -18,6 +19,7 @@ import FluteModel.ToiWire
     start <k>                                    -> wire <toi read back> <O> <H> <field hex>
     drain                                        -> done <tois…> | done -
     fdt                                          -> fdt <sorted tois…> | fdt -
+    admission …        (stateless: admission of an object, see Drv/Admit.lean)
     wire <toi> <tsi>   (stateless: header builder + parser on any u128)   -> wire <toi read back> <O> <H> <field hex>
     freerun <n>        (n objects without TOI added, published, all transferred to the end) -> sent <sorted tois…>
     churn <n>          (n times: allocate a handle, drop it)              -> ok <last value>
@@ -213,6 +215,7 @@ def step (st : St) (args : List String) : St × String :=
     match st.sys with
     | some s => (st, showList "fdt" (sortNat s.fdtTois))
     | none => (st, "bad-op")
+  | "admission" :: rest => (st, Admit.step rest)
   | ["wire", toi, tsi] =>
     match nat? toi, nat? tsi with
     | some toi, some tsi =>
